@@ -23,7 +23,7 @@ CASE_TIMEOUT = {"quick": 40, "thorough": 120}
 
 
 def budget(tier):
-    return 900 if tier == "quick" else 9000
+    return 1500 if tier == "quick" else 15000
 
 
 def gen_case(rng, tier, k):
@@ -34,6 +34,12 @@ def gen_case(rng, tier, k):
                         ["dfs", 0, rng.randint(0, 2), None], ["min", 0, lim, False], ["min", 0, None, True],
                         ["min", 0, lim, True], ["aseeds", lim], ["blockx", True, lim, True, False], ["none"]])
     ops = [] if first == ["none"] else [first]
+    if rng.random() < 0.4:
+        # attractor data computed on stubs (and possibly reclaimed) before they are skipped
+        for _ in range(rng.randint(1, 3)):
+            ops.append([rng.choice(["seedsq", "seedsq", "cands", "seedsfb"]), rng.randrange(64)])
+        if rng.random() < 0.6:
+            ops.append(["reclaim"])
     for _ in range(rng.randint(0, 2)):
         ops.append(["skipmin", rng.randrange(64)])
     ops.append(["skiprem"])
@@ -48,7 +54,10 @@ def run_case(case):
     ni = common.NetInfo(sd.network)
     for op in case["ops"]:
         try:
-            plain.apply_op(sd, ni, op)
+            if op[0] == "seedsfb":
+                sd.node_attractor_seeds(op[1] % len(sd), compute=True, symbolic_fallback=True)
+            else:
+                plain.apply_op(sd, ni, op)
         except RuntimeError:
             pass
     order = list(sd.node_ids())
